@@ -146,4 +146,45 @@ func init() {
 	)
 }
 
+func init() {
+	props = append(props,
+		Prop{
+			ID: "C04",
+			Runs: []Run{
+				{Harness: "zzverif/zzh.ZZC04Cross", Desc: "references from package u (path zzmod/u, name u) to @packageonly type/function/method of d: call, method call, method value, type in parameter/literal/var/field; allow-list shapes symbolic (bare, by name, by path, several entries + trailing comma, second annotation line = union, look-alike names, absent); same-package uses in d", Bounds: map[string]interface{}{"skeleton": "c04SrcD + c04SrcU", "holes": 4, "allow_list_spellings": "6 x 3 x 5 x 4"}},
+			},
+			Outside:     []string{"dot-imports; generic items; references through type aliases (see C13)"},
+			Assumptions: []string{"program skeletons parsed/type-checked by go/parser + go/types; facts passed in-process"},
+		},
+		Prop{
+			ID: "C07",
+			Runs: []Run{
+				{Harness: "zzverif/zzh.ZZC07Scopes", Desc: "8 placements of an @ignore comment (before package clause, alone before func / type declaration, alone before a multi-line statement, trailing a statement, trailing 'if ... {', last in a body, trailing a struct field), any <= 2 of them active; query = ANY byte position of the file x 7 codes: Contains == documented extent", Bounds: map[string]interface{}{"skeleton": "c07Src", "placements": 8, "active_markers": "<= 2", "query_position": "every offset 0..len+2 (symbolic)"}},
+				{Harness: "zzverif/zzh.ZZC07Spellings", Desc: "declaration placement with 9 code-list spellings (single, several + prose, category, ALL lower-case, unknown + trailing comma, other category, near-miss keywords)", Bounds: map[string]interface{}{"spellings": 9}},
+				{Harness: "zzverif/zzh.ZZC07SpellingsStmt", Desc: "statement placement with the 9 spellings", Bounds: map[string]interface{}{"spellings": 9}},
+				{Harness: "zzverif/zzh.ZZC07Rereport", Desc: "report-time filter (IMM) and detection-time filter with once-per-file re-reporting (TONL01, PKGO01 move to the next unsuppressed use of 3), trailing and stand-alone markers, 5x4x4x4 marker spellings", Bounds: map[string]interface{}{"skeleton": "c07SrcRD + c07SrcRU", "holes": 4}},
+			},
+			Outside:     []string{"more than two markers in one file at a time (placement harness)", "block comments /* @ignore */", "markers inside excluded files (C14)"},
+			Assumptions: []string{"extents of declarations/statements/lines are computed by the harness from landmarks in the skeleton source, not from the code under test"},
+		},
+		Prop{
+			ID: "C08",
+			Runs: []Run{
+				{Harness: "zzverif/zzh.ZZC08Text", Desc: "exclude-checks as raw text (any case/blanks/empty items): ReadIgnoreAnnotations + IgnoreSet.Contains drop code c at any position iff an item names ALL, c's category or c", Bounds: map[string]interface{}{"text_bytes": 9, "commas": 2, "codes": 7}},
+				{Harness: "zzverif/zzh.ZZC08AllCheckers", Desc: "two-package program producing all 13 IMM/CTOR/TONL/PKGO codes; exclude-checks = 0..2 tokens from {ALL, 5 categories, 6 codes, junk, prefix look-alike}: reported set == unrestricted set minus matching codes, for report-time (IMM, CTOR) and detection-time (TONL, PKGO) filters alike", Bounds: map[string]interface{}{"tokens": "0..2 of 14", "program": "allSrcD + allSrcU"}},
+			},
+			Outside:     []string{"flag/env plumbing of the value (C18)", "IMPL codes in the L1 harness (covered by the text harness and C05)", "more than two tokens at once in the L1 harness"},
+			Assumptions: []string{"as C01-C04"},
+		},
+		Prop{
+			ID: "C14",
+			Runs: []Run{
+				{Harness: "zzverif/zzh.ZZC14Files", Desc: "package of two files; the second file's name (regular, _test.go, testdata/, gen/, look-alikes), scan-tests, exclude-paths (4 settings) and a file-level @ignore inside it are symbolic; it declares an @immutable type and a @testonly function used by the first file and contains violations itself", Bounds: map[string]interface{}{"file_names": 6, "exclude_paths": 4, "scan_tests": "symbolic"}},
+			},
+			Outside:     []string{"external test packages (package d_test) as separate passes", "arbitrary exclude-path strings (4 fixed settings incl. empty list and a prefix look-alike)"},
+			Assumptions: []string{"file names reach the code only through token.FileSet.Position (host strings replaced by the symbolic name)"},
+		},
+	)
+}
+
 var _ = eng.RepoMod
